@@ -36,7 +36,9 @@ func init() {
 	contextFunctions[symbols.NT_StepWithAxisAndNodeTest] = leftRightDependentResult
 	contextFunctions[symbols.NT_StepWithAxisAndNodeTestAndPredicate] = leftRightDependentResult
 	contextFunctions[symbols.NT_StepWithPredicateWithAnotherPredicate] = leftRightDependentResult
-	contextFunctions[symbols.NT_FilterExprWithPredicate] = leftRightDependentResult
+	contextFunctions[symbols.NT_FilterExprWithPredicate] = execFilterExprWithPredicate
+	contextFunctions[symbols.NT_PathExprFilterWithPath] = leftRightDependentResult
+	contextFunctions[symbols.NT_PathExprFilterWithAbbreviatedPath] = execAbbreviatedRelativeLocationPath
 	contextFunctions[symbols.NT_AxisName] = execAxisName
 	contextFunctions[symbols.NT_AbbreviatedStepParent] = execAbbreviatedStepParent
 	contextFunctions[symbols.NT_AbbreviatedAxisSpecifier] = execAbbreviatedAxisSpecifier
@@ -161,6 +163,31 @@ func execPredicate(context *exprContext, expr *grammar.Grammar) error {
 
 	context.result = nextResult
 	return nil
+}
+
+func execFilterExprWithPredicate(context *exprContext, expr *grammar.Grammar) error {
+	children := make([]*bsr.BSR, 0, 2)
+
+	for _, cn := range expr.BSR.GetAllNTChildren() {
+		for _, c := range cn {
+			children = append(children, &c)
+		}
+	}
+
+	if err := execContext(context, expr.Next(children[0])); err != nil {
+		return err
+	}
+
+	// A predicate on a filter expression numbers the nodes in document order,
+	// whatever order the expression delivered them in. Sort a copy: the
+	// node-set may be a variable owned by the caller.
+	if nodeSet, ok := context.result.(NodeSet); ok {
+		sorted := make(NodeSet, len(nodeSet))
+		copy(sorted, nodeSet)
+		context.result = cleanupForwardAxis(sorted)
+	}
+
+	return execContext(context, expr.Next(children[1]))
 }
 
 func execNodeTestNodeTypeNoArgTest(context *exprContext, expr *grammar.Grammar) error {
